@@ -7,6 +7,7 @@ pub mod c04;
 pub mod c05;
 pub mod c05w;
 pub mod c06;
+pub mod c06w;
 
 pub const ALL: &[&str] = &["C01", "C02", "C03", "C04", "C05", "C06"];
 
